@@ -851,6 +851,51 @@ int pthread_mutex_unlock(pthread_mutex_t* m) {
     return 0;
 }
 
+// ---- condition variables: a generation counter per condvar; a wait releases the mutex, parks until the generation moves
+// (or the deadline passes) and takes the mutex again. signal wakes every waiter (spurious wake-ups are allowed by POSIX).
+static std::map<void*, std::uint64_t>& cond_gens() { static std::map<void*, std::uint64_t> m; return m; }
+static int sim_cond_wait(pthread_cond_t* c, pthread_mutex_t* m, std::int64_t deadline_sim) {
+    const std::uint64_t g0 = cond_gens()[c];
+    pthread_mutex_unlock(m);
+    block([c, g0] { return cond_gens()[c] != g0; }, deadline_sim);
+    const bool woken = cond_gens()[c] != g0;
+    pthread_mutex_lock(m);
+    return woken ? 0 : ETIMEDOUT;
+}
+static std::int64_t sim_deadline(clockid_t id, const struct timespec* ts) {
+    const std::int64_t t = static_cast<std::int64_t>(ts->tv_sec) * 1000000000LL + ts->tv_nsec;
+    return (id == CLOCK_REALTIME || id == CLOCK_REALTIME_COARSE) ? t - kWallEpochNs - cur_proc().wall_offset : t - kSteadyEpochNs;
+}
+int pthread_cond_wait(pthread_cond_t* c, pthread_mutex_t* m) {
+    if (!sim()) { static auto real = reinterpret_cast<int (*)(pthread_cond_t*, pthread_mutex_t*)>(dlsym(RTLD_NEXT, "pthread_cond_wait")); return real(c, m); }
+    return sim_cond_wait(c, m, INT64_MAX) == ETIMEDOUT ? 0 : 0;
+}
+int pthread_cond_timedwait(pthread_cond_t* c, pthread_mutex_t* m, const struct timespec* ts) {
+    if (!sim()) { static auto real = reinterpret_cast<int (*)(pthread_cond_t*, pthread_mutex_t*, const struct timespec*)>(dlsym(RTLD_NEXT, "pthread_cond_timedwait")); return real(c, m, ts); }
+    return sim_cond_wait(c, m, sim_deadline(CLOCK_REALTIME, ts));
+}
+int pthread_cond_clockwait(pthread_cond_t* c, pthread_mutex_t* m, clockid_t id, const struct timespec* ts) {
+    if (!sim()) { static auto real = reinterpret_cast<int (*)(pthread_cond_t*, pthread_mutex_t*, clockid_t, const struct timespec*)>(dlsym(RTLD_NEXT, "pthread_cond_clockwait")); return real(c, m, id, ts); }
+    return sim_cond_wait(c, m, sim_deadline(id, ts));
+}
+int pthread_cond_signal(pthread_cond_t* c) {
+    if (!sim()) { static auto real = reinterpret_cast<int (*)(pthread_cond_t*)>(dlsym(RTLD_NEXT, "pthread_cond_signal")); return real(c); }
+    ++cond_gens()[c];
+    preempt_point();
+    return 0;
+}
+int pthread_cond_broadcast(pthread_cond_t* c) {
+    if (!sim()) { static auto real = reinterpret_cast<int (*)(pthread_cond_t*)>(dlsym(RTLD_NEXT, "pthread_cond_broadcast")); return real(c); }
+    ++cond_gens()[c];
+    preempt_point();
+    return 0;
+}
+int pthread_cond_destroy(pthread_cond_t* c) {
+    if (!sim()) { static auto real = reinterpret_cast<int (*)(pthread_cond_t*)>(dlsym(RTLD_NEXT, "pthread_cond_destroy")); return real(c); }
+    cond_gens().erase(c);
+    return 0;
+}
+
 // ---- signals: record dispositions per simulated process; never touch the real ones in-sim
 typedef void (*sk_sighandler_t)(int);
 static sk_sighandler_t (*real_signal)(int, sk_sighandler_t);
